@@ -267,7 +267,12 @@ class SysInterp(Interp):
                     raise PyRaise("ValueError", None, f"{name}() iterable argument is empty")
                 if not vals:
                     return default
-                return SymScalar(NP.t_fn("py" + name, *[NP.as_term(x) for x in vals])) if any(isinstance(x, SymScalar) for x in vals) else base(*args)
+                if any(isinstance(x, SymScalar) for x in vals):
+                    terms = [NP.as_term(x) for x in vals]
+                    if all(t[0] == "k" and isinstance(t[1], (int, float)) for t in terms):
+                        return SymScalar(("k", (max if name == "max" else min)(t[1] for t in terms)))       # plain numbers
+                    return SymScalar(NP.t_fn("py" + name, *terms))
+                return base(*args)
             return mm
         return super()._builtin(name)
 
